@@ -536,6 +536,14 @@ func (b *builder) runPattern(prog []*scen.TestNode) string {
 			return t
 		},
 		func() string { return "/" + subNames[r.Intn(len(subNames))] },
+		func() string {
+			// alternation of a two-level and a one-level pattern
+			u := tops[r.Intn(len(tops))]
+			if len(subs) > 0 {
+				return "^" + strings.Replace(subs[r.Intn(len(subs))], "/", "$/^", 1) + "$|^" + u + "$"
+			}
+			return "^" + t + "$/sub|^" + u + "$"
+		},
 		func() string { return "Sub|1" },
 		func() string { return "1" },
 		func() string { return "A$" },
